@@ -9,15 +9,17 @@ fn fwd(op: &Op, _ctx: &dyn Context, operands: &mut dyn CoordinateSet) -> usize {
     let k_0 = op.params.k(0);
     let x_0 = op.params.x(0);
     let y_0 = op.params.y(0);
-    let lat_0 = op.params.lat(0);
+    let lat_0 = op.params.lat(0).to_radians();
     let lon_0 = op.params.lon(0).to_radians();
+    // Northings are counted from the parallel of the projection center
+    let isometric_0 = ellps.latitude_geographic_to_isometric(lat_0);
 
     let mut successes = 0_usize;
     for i in 0..operands.len() {
         let (lon, lat) = operands.xy(i);
 
         let easting = (lon - lon_0) * k_0 * a + x_0;
-        let isometric = ellps.latitude_geographic_to_isometric(lat + lat_0);
+        let isometric = ellps.latitude_geographic_to_isometric(lat) - isometric_0;
         let northing = a * k_0 * isometric + y_0;
 
         operands.set_xy(i, easting, northing);
@@ -35,8 +37,10 @@ fn inv(op: &Op, _ctx: &dyn Context, operands: &mut dyn CoordinateSet) -> usize {
     let k_0 = op.params.k(0);
     let x_0 = op.params.x(0);
     let y_0 = op.params.y(0);
-    let lat_0 = op.params.lat(0);
+    let lat_0 = op.params.lat(0).to_radians();
     let lon_0 = op.params.lon(0).to_radians();
+    // Northings are counted from the parallel of the projection center
+    let isometric_0 = ellps.latitude_geographic_to_isometric(lat_0);
 
     let mut successes = 0_usize;
     for i in 0..operands.len() {
@@ -48,8 +52,8 @@ fn inv(op: &Op, _ctx: &dyn Context, operands: &mut dyn CoordinateSet) -> usize {
 
         // Northing -> Latitude
         y -= y_0;
-        let psi = y / (a * k_0);
-        let lat = ellps.latitude_isometric_to_geographic(psi) - lat_0;
+        let psi = y / (a * k_0) + isometric_0;
+        let lat = ellps.latitude_isometric_to_geographic(psi);
         operands.set_xy(i, lon, lat);
         successes += 1;
     }
